@@ -296,7 +296,7 @@ def hostile_items(role, flavour):
     junk += [b'\x00\x00\x00', b'\x00\x00\x05junk!', b'\x00\x00\x06\x00\x00\x00\x00\xfc\x00', b'\x00\x00\x01\x2a']
     for j in junk:
         it['raw-' + j.hex()] = (('bytes', j), set(), True)
-    if flavour == 'msg':
+    if flavour not in ('tcp', 'quic'):
         it['empty-message'] = (('bytes', b''), set(), True)
     return it
 
@@ -333,7 +333,7 @@ def hostile_case(role, flavour, names):
                 strict = strict and st
                 if isinstance(frames, tuple):
                     data = frames[1]
-                    if flavour == 'tcp':
+                    if flavour in ('tcp', 'quic'):
                         data = pad_to_boundary(data)
                     b_.s.peer_bytes(data)
                 else:
@@ -618,7 +618,20 @@ def make_units(tier):
             for first in names:
                 units.append({'kind': 'hostile', 'role': role, 'flavour': flavour, 'first': first, 'tier': tier})
             units.append({'kind': 'app', 'role': role, 'flavour': flavour, 'tier': tier})
+    # every other transport class: each hostile item alone and after a junk / empty message (quick); all pairs (thorough)
+    for role, flavour in EXTRA_ENDS:
+        names = sorted(hostile_items(role, flavour))
+        if tier == 'quick':
+            units.append({'kind': 'hostile', 'role': role, 'flavour': flavour, 'first': None, 'tier': tier})
+        else:
+            for first in names:
+                units.append({'kind': 'hostile', 'role': role, 'flavour': flavour, 'first': first, 'tier': 'quick'})
+        units.append({'kind': 'app', 'role': role, 'flavour': flavour, 'tier': tier})
     return units
+
+
+EXTRA_ENDS = (('server', 'wsk'), ('server', 'quart'), ('server', 'h3'), ('server', 'chan'), ('client', 'chan'),
+              ('server', 'quic'), ('client', 'quic'))
 
 
 def bounds(tier):
@@ -650,7 +663,11 @@ def run_unit(unit, part):
         part.sample({'kind': 'header', 'role': role, 'link': flavour, 'type': t}, limit=1)
     elif unit['kind'] == 'hostile':
         names = sorted(hostile_items(role, flavour))
-        seqs = [(unit['first'],)] + [(unit['first'], n2) for n2 in names]
+        if unit['first'] is None:
+            lead = [n for n in ('raw-00', 'raw-000000', 'raw-0000012a', 'empty-message') if n in names]
+            seqs = [(n,) for n in names] + [(l, n) for l in lead for n in names if not n.startswith('raw-')]
+        else:
+            seqs = [(unit['first'],)] + [(unit['first'], n2) for n2 in names]
         if tier == 'thorough':
             seqs += [(unit['first'], n2, n3) for n2 in names if not n2.startswith('raw-') for n3 in names if not n3.startswith('raw-')]
         for seq in seqs:
@@ -663,7 +680,7 @@ def run_unit(unit, part):
             part.nontriv((role, flavour, seq))
             for rule, sig, detail in v:
                 part.violate(rule, sig, detail, {'kind': 'hostile', 'role': role, 'flavour': flavour, 'seq': list(seq)})
-        part.sample({'kind': 'hostile', 'role': role, 'link': flavour, 'first': unit['first']}, limit=1)
+        part.sample({'kind': 'hostile', 'role': role, 'link': flavour, 'first': unit['first'] or 'each item alone / after junk'}, limit=1)
     else:
         for name in (APP_CASES_SERVER if role == 'server' else APP_CASES_CLIENT):
             v, outc = app_case(role, flavour, name)
